@@ -107,8 +107,7 @@ func (d *dgen) walk(n *gplan.Node, ctx int, names []string, cut int, frozen bool
 		if c < 0 {
 			c = len(here)
 		}
-		// inside a list of lists the renderer cannot seek: fields keep the enclosing mark
-		d.walk(n.Item, ctx, here, c, frozen || (n.Item.Kind == gplan.KArr && !d.wild))
+		d.walk(n.Item, ctx, here, c, frozen)
 	case gplan.KObj:
 		here := append(append([]string{}, names...), n.Path...)
 		for _, f := range n.Fields {
